@@ -558,6 +558,34 @@ def _mk(args, kw, shape, seed):
     return args, kw
 
 
+SCALES = [1e-3, 1e-9, 1e-12]      # amplitude alphabet besides 1: small units, cross-polarisation leakage, far below any absolute tolerance
+
+
+def jones_kinds():
+    return ['4d'] + [f'4d:{i}{j}:{si}' for i in range(2) for j in range(2) for si in range(len(SCALES))] + [f'4d:all:{si}' for si in range(len(SCALES))]
+
+
+def jones_input(shape, seed, kind):
+    """Seeded dense Jones field; kind '4d:ij:k' scales component (i,j) alone by SCALES[k] (others stay O(1)), '4d:all:k' the whole field."""
+    J = dense(tuple(shape) + (2, 2), seed, salt=300)
+    if kind != '4d':
+        _, ij, si = kind.split(':')
+        if ij == 'all':
+            J = J * SCALES[int(si)]
+        else:
+            J[..., int(ij[0]), int(ij[1])] *= SCALES[int(si)]
+    return J
+
+
+def comp_tol(want, k=64):
+    """Relative tolerance PER Jones component: k * TOLU * max|component| (zero for an exactly-zero component)."""
+    tol = np.empty(want.shape)
+    for i in range(2):
+        for j in range(2):
+            tol[..., i, j] = k * TOLU * float(np.abs(want[..., i, j]).max())
+    return tol
+
+
 def jones_fields(shape, seed):
     J = dense(tuple(shape) + (2, 2), seed, salt=300)
     out = [('dense', J)]
@@ -566,6 +594,8 @@ def jones_fields(shape, seed):
             Z = np.zeros_like(J)
             Z[..., i, j] = J[..., i, j]
             out.append((f'only-J{i}{j}', Z))
+    for kind in jones_kinds()[1:]:
+        out.append((kind, jones_input(shape, seed, kind)))
     return out
 
 
@@ -589,6 +619,7 @@ def run_adapter(case, seed, R):
         return
     for ci, (args, kw) in enumerate(prop_calls(shape)[name]):
         sig = f'jones_adapter:{name}'
+        got_dense = None
         for fname, J in jones_fields(shape, seed):
             a, k = _mk(args, kw, shape, seed)
             reset_executors(64)
@@ -616,8 +647,12 @@ def run_adapter(case, seed, R):
             want = np.empty(oshape + (2, 2), dtype=complex)
             for (i, j), c in comps.items():
                 want[..., i, j] = c
-            tol = 64 * TOLU * max(1.0, float(np.abs(want).max()))
-            R.expect_close(got, want, tol, sig + ':componentwise', f'adapter({name}) call {ci} on {fname} {shape} vs four plain propagations')
+            R.expect_close(got, want, comp_tol(want), sig + ':componentwise', f'adapter({name}) call {ci} on {fname} {shape} vs four plain propagations (relative per component)')
+            if fname == 'dense':
+                got_dense = got
+            elif fname.startswith('4d:all:') and got_dense is not None:
+                sc = SCALES[int(fname.split(':')[2])]
+                R.expect_close(got, sc * got_dense, comp_tol(sc * got_dense), sig + ':homogeneous', f'adapter({name})(s J) != s adapter({name})(J), s={sc}, call {ci} {shape}')
         # scalar (2-D) fields pass straight through
         E = dense(shape, seed, salt=301)
         a, k = _mk(args, kw, shape, seed)
@@ -663,9 +698,9 @@ for shape in c20.HIST_SHAPES:
     shape = tuple(shape)
     for name, calls in c20.prop_calls(shape).items():
         for ci, (args, kw) in enumerate(calls):
-            for kind in ('2d', '4d'):
+            for kind in ['2d'] + c20.jones_kinds():
                 key = f'{name}|{shape[0]}x{shape[1]}|{ci}|{kind}'
-                x = c20.dense(shape, seed, salt=301) if kind == '2d' else c20.dense(shape + (2, 2), seed, salt=300)
+                x = c20.dense(shape, seed, salt=301) if kind == '2d' else c20.jones_input(shape, seed, kind)
                 a, kk = c20._mk(args, kw, shape, seed)
                 c20.reset_executors(64)
                 try:
@@ -738,22 +773,24 @@ def run_history(case, seed, R):
                 else:
                     R.expect_close(res.get(key2, FAILED), w2, tol, sig + ':plain-broken', f'plain 2-D {name} (call {ci}, {shape}) after {k} installs')
                 if name in patched:
-                    J = dense(shape + (2, 2), seed, salt=300)
-                    want = np.empty(np.asarray(w2).shape + (2, 2), dtype=complex)
-                    for i in range(2):
-                        for j in range(2):
-                            a, kk = _mk(args, kw, shape, seed)
-                            reset_executors(64)
-                            c = plain_eval(plain, np.ascontiguousarray(J[..., i, j]), a, kk)
-                            want[..., i, j] = np.nan if c is None else c
-                    if not np.all(np.isfinite(want)):
-                        R.outcome('plain-routine-raises')
-                        continue
-                    if key4 in meta['errors']:
-                        R.violation(sig + ':polarized', f'polarised {name} raised after {k} installs: {meta["errors"][key4]}')
-                    else:
-                        R.expect_close(res.get(key4, FAILED), want, 64 * TOLU * max(1.0, float(np.abs(want).max())), sig + ':polarized',
-                                       f'polarised {name} (call {ci}, {shape}) after {k} installs vs component-wise plain propagation')
+                    for kind in jones_kinds():
+                        key4 = f'{name}|{shape[0]}x{shape[1]}|{ci}|{kind}'
+                        J = jones_input(shape, seed, kind)
+                        want = np.empty(np.asarray(w2).shape + (2, 2), dtype=complex)
+                        for i in range(2):
+                            for j in range(2):
+                                a, kk = _mk(args, kw, shape, seed)
+                                reset_executors(64)
+                                c = plain_eval(plain, np.ascontiguousarray(J[..., i, j]), a, kk)
+                                want[..., i, j] = np.nan if c is None else c
+                        if not np.all(np.isfinite(want)):
+                            R.outcome('plain-routine-raises')
+                            continue
+                        if key4 in meta['errors']:
+                            R.violation(sig + ':polarized', f'polarised {name} raised after {k} installs: {meta["errors"][key4]}')
+                        else:
+                            R.expect_close(res.get(key4, FAILED), want, comp_tol(want), sig + ':polarized',
+                                           f'polarised {name} (call {ci}, {shape}, field {kind}) after {k} installs vs component-wise plain propagation (relative per component)')
                     R.nontrivial(True)
         E = dense(shape, seed, salt=301)
         for mname, margs in (('focus', (100.0, 2)), ('unfocus', (100.0, 2)), ('free_space', (3.0, 2)), ('focus_fixed_sampling', (100.0, 2.0, 5))):
@@ -846,9 +883,9 @@ def plan(tier, seed):
         ScopeUnit('vectors', vectors, run_vectors,
                   'linear_pol_vector with array angles (radians and degrees) == element-by-element; circular_pol_vector both handednesses, value, S3 sign, and shape= form'),
         ScopeUnit('adapter', adapters, run_adapter,
-                  f'jones_adapter(f) for each of the five supported routines x shapes {ashapes} x three call forms (positional / keyword / shift / czt / explicit tf) x five Jones fields (seeded dense, and each single component alone): '
-                  'equal to four plain propagations of the components; 2-D fields pass through unchanged; apply_polarization_optic', reset=rs),
+                  f'jones_adapter(f) for each of the five supported routines x shapes {ashapes} x three call forms (positional / keyword / shift / czt / explicit tf) x 20 Jones fields (seeded dense; each single component alone; each component alone scaled by {1e-3, 1e-9, 1e-12} with the others O(1); the whole field scaled likewise): '
+                  'equal to four plain propagations of the components with a RELATIVE tolerance per component; homogeneity adapter(s J) = s adapter(J); 2-D fields pass through unchanged; apply_polarization_optic', reset=rs),
         ScopeUnit('install_history', hist, run_history,
                   'add_jones_propagation installed 0, 1, 2' + ('' if quick else ', 3') + ' times (default list and sub-lists) in a fresh sub-process per case: exactly the listed attributes are replaced, plain 2-D calls and Wavefront methods '
-                  'give the results of the never-patched routines, polarised (N,M,2,2) calls equal component-wise plain propagation; shapes (4,4) and (4,6), three call forms per routine', reset=rs, chunk=1),
+                  'give the results of the never-patched routines, polarised (N,M,2,2) calls equal component-wise plain propagation (relative per component; dense field plus the same amplitude-scale alphabet {1e-3,1e-9,1e-12} per component and overall); shapes (4,4) and (4,6), three call forms per routine', reset=rs, chunk=1),
     ]
